@@ -281,10 +281,11 @@ package soyhtml
 //@ func funcRange
 //@   like renderFn
 //@   props C06 C01 C08 C09
-//@   nosafety
+//@   nosafety assert idx
 //@   ensures[bounded] typeis(result, data.List)
+//@   ensures[descending-or-empty-span-is-the-empty-list;C01] limit <= init ==> len(unbox(result, data.List)) == 0
 //@   loop 0
-//@     invariant increment > 0 && fresh(indices)
+//@     invariant increment > 0 && fresh(indices) && (limit <= init ==> len(indices) == 0) && index >= init
 //@     decreases limit - index
 
 // Intermediate recover sites never swallow a panic: they return normally only
